@@ -95,6 +95,8 @@ def run(tier, replay=None):
             n += mu.check_constructor(prog, fn, ty, allinv, rep, c10.EXEMPT_CTORS)
     rep.floor('parser result typestate', n, 3)
     c02.fromstr_delegation(prog, rep, LO, 'Locale')
+    from . import c04
+    c04.canonicalize_shape(prog, rep, only='unic_locale_impl')
     rep.explanation = ('Locale::from_bytes = core parser (allow_extension=true) then the extension dispatcher on the same token stream.  Decided: every validator (4 subtag types, key/type/attribute, '
                        'tkey/tvalue, private tag, the boolean pre-checks) accepts exactly its production with the specified normalisation; ExtensionType::from_byte for all 256 bytes; the split '
                        'predicates are exactly {-,_}; and for each of the five token-stream functions the transition table extracted from MIR (exact token shapes per path) equals the specification '
